@@ -22,11 +22,11 @@ ASSUMPTIONS = [
 
 @st.composite
 def cases(draw, nums, pmax=5, kmax=5):
+    if draw(st.integers(0, 7)) == 0:
+        kmax = 9  # many spans
     c = draw(gen.curves(0, pmax, kmax, nums=nums))
-    if c["num"] == "int":
-        pass
     outside = draw(gen.outside_params(c["U"]))
-    seqtype = draw(st.sampled_from(["tuple", "list"]))
+    seqtype = draw(st.sampled_from(["tuple", "list", "ndarray"]))
     return {"curve": c, "outside": outside, "seqtype": seqtype,
             "intparam": draw(st.booleans()), "twin_first": draw(st.integers(0, 2)) == 0}
 
@@ -114,6 +114,9 @@ def check(case, out):
         compare(val, rv, f"u={lp}")
     # (b) one sequence call
     seq = tuple(lparams) if case["seqtype"] == "tuple" else list(lparams)
+    if case["seqtype"] == "ndarray":
+        seq = np.array(lparams, dtype=object if exact else "float64")
+    out.cls("seq=" + case["seqtype"])
     try:
         vals = curve(seq)
     except ValueError as exc:
